@@ -51,6 +51,18 @@ theorem C17_flat_index_register {rs : Regs} {n : String} {l : List Nat}
       l = (List.range sz).map (· + o) :=
   regIndices_eq (by simpa [argIndices] using h)
 
+/-- Argument lists (`anylist`: bare registers and indexed qubits, any number of registers) are
+read element-wise and in order; if every index is inside its register, every qubit is inside
+the circuit. -/
+theorem C17_flat_index_anylist {rs : Regs} {as : List Arg} {l : List Nat}
+    (h : anylistIndices rs as = some l) :
+    (∃ ls, as.mapM (argIndices rs) = some ls ∧ l = ls.flatten) ∧
+    ((∀ a ∈ as, a.inRange rs) → ∀ q ∈ l, q < totalSize rs) :=
+  ⟨anylist_elementwise h, anylist_lt_total h⟩
+
+example : anylistIndices [("q", 2), ("r", 1)] [⟨"r", none⟩, ⟨"q", some 1⟩] = some [2, 1] := by
+  decide
+
 /-- `qreg` keeps register names distinct. -/
 theorem C17_qregs_nodup {V : Type} (A : Arith V) (s s' : St V) (st : Stmt V)
     (h : elabStmt A s st = some s') (hnd : (s.qregs.map Prod.fst).Nodup) :
@@ -261,14 +273,20 @@ theorem C17_if_witness :
 
 /-! ## C17_print_parse — the writer's format is read back -/
 
+/- Full strength: for every qubit circuit over gates with a spelling, `decode (encode c)` is
+   `c`.  Missing from the theorem below: circuits with `CircuitGate` definitions and
+   measurements (compared by the run on every generated circuit), and the step from
+   characters to tokens (checked by the driver for every text it prints); the five library
+   gates of `knownUnreadable` do not round-trip at all (`C17_gate_table_readable_witness`). -/
 /-- **Round trip of the writer's statement format through the reader** (tokens): if every
-line `name(p…) q[i],…;` names a row of the table with matching arities, distinct qubits
+line is `barrier q[i],…;`, `reset q[i];` or `name(p…) q[i],…;` naming a row of the table
+(`POp.Reads`) with matching arities, distinct qubits
 inside the `N`-qubit register and finite printed parameters, then reading the program the
 writer emits (`OPENQASM 2.0; include "qelib1.inc"; qreg q[N];` + the lines) gives exactly the
 operations `exp` — same gates, same locations, parameters = the values of the printed
 literals (`C17_print_parse_param`).  `lex (printProgram n ops) = programToks n ops` is
 checked by the driver on every circuit the run prints. -/
-theorem C17_print_parse {V : Type} (A : Arith V) (table : List BuiltinDef) (n : Nat)
+theorem C17_print_parse_partial {V : Type} (A : Arith V) (table : List BuiltinDef) (n : Nat)
     (hn : 0 < n) (ops : List POp) (exp : List (Op V)) (h : ReadsAll A table ops exp)
     (hr : ∀ o ∈ ops, ∀ q ∈ o.loc, q < n) :
     decodeToks A table (programToks n ops) = some ⟨n, [], exp⟩ :=
@@ -282,11 +300,14 @@ theorem C17_print_parse_param {V : Type} (A : Arith V) (p : PLit) :
   evalQ_lit A p
 
 example : ReadsAll intArith tinyTable
-    [⟨"rz", [⟨true, "2"⟩], [1]⟩, ⟨"cx", [], [0, 1]⟩]
-    [.prim "RZGate" [1] [-2], .prim "CNOTGate" [0, 1] []] :=
-  .cons ⟨by decide, by decide, ⟨"rz", 1, 1, "RZGate", 1, 1⟩, [-2], rfl, rfl, rfl, rfl, rfl⟩
-    (.cons ⟨by decide, by decide, ⟨"cx", 0, 2, "CNOTGate", 0, 2⟩, [], rfl, rfl, rfl, rfl, rfl⟩
-      .nil)
+    [⟨"rz", [⟨true, "2"⟩], [1]⟩, ⟨"barrier", [], [1, 0]⟩, ⟨"cx", [], [0, 1]⟩, ⟨"reset", [], [1]⟩]
+    [.prim "RZGate" [1] [-2], .barrier [1, 0], .prim "CNOTGate" [0, 1] [], .reset 1] :=
+  .cons (.inr (.inr ⟨by decide, by decide, by decide,
+      ⟨"rz", 1, 1, "RZGate", 1, 1⟩, [-2], rfl, rfl, rfl, rfl, rfl⟩))
+    (.cons (.inl ⟨rfl, rfl, by decide, by decide, rfl⟩)
+      (.cons (.inr (.inr ⟨by decide, by decide, by decide,
+          ⟨"cx", 0, 2, "CNOTGate", 0, 2⟩, [], rfl, rfl, rfl, rfl, rfl⟩))
+        (.cons (.inr (.inl ⟨rfl, rfl, 1, rfl, rfl⟩)) .nil)))
 
 /-! ## C17_gate_table — (B): the live table, regenerated on every run -/
 
